@@ -6,6 +6,7 @@ import (
 	"verif/props/c09"
 	"verif/props/c10"
 	"verif/props/c11"
+	"verif/props/c19"
 	"verif/sim/core"
 )
 
@@ -28,6 +29,8 @@ func Get(id string) core.Property {
 		return c10.New()
 	case "C11":
 		return c11.New()
+	case "C19":
+		return c19.New()
 	}
 	return nil
 }
